@@ -118,7 +118,11 @@ fn computed_err(e: &ComputedScheduleError) -> Sexp {
 }
 
 fn case(ctx: &mut Ctx, tag: &str, text: &str) {
-    let program = Program::from_str(text).unwrap_or_else(|e| panic!("program does not parse: {text:?}: {e}"));
+    // the program is built by `add_instruction` calls from a known instruction list (the "ast" stream sends it)
+    let added = Program::from_str(text)
+        .unwrap_or_else(|e| panic!("program does not parse: {text:?}: {e}"))
+        .to_instructions();
+    let program = Program::from_instructions(added.clone());
     let handler = DefaultHandler;
     let source_block: BasicBlock = match BasicBlock::try_from(&program) {
         Ok(b) => b,
@@ -165,13 +169,49 @@ fn case(ctx: &mut Ctx, tag: &str, text: &str) {
         project_block(&program, &handler, &externs, &numbering, &expanded_blocks[0])
     };
     let durs: Vec<Sexp> = flat.iter().map(|i| dur_desc(&program, i)).collect();
-    let input = tagged(tag, vec![input_prog, list(durs), list(lens.iter().map(|&l| nat(l)).collect())]);
+    let lens_sexp = list(lens.iter().map(|&l| nat(l)).collect());
+    let input = tagged(tag, vec![input_prog, list(durs.clone()), lens_sexp.clone()]);
+    // "ast" twin of the case: the whole program and the expanded block as full ASTs; the driver derives the
+    // handler's answers and the duration ingredients itself (HandlerFromAst); `durs` is only cross-checked
+    let ast_input = tagged(
+        "ast",
+        vec![
+            qvh::ast::instructions_to_sexp(&added),
+            sigs_sexp(&program),
+            qvh::ast::instructions_to_sexp(&flat),
+            match source_block.terminator().clone().into_instruction() {
+                Some(t) => qvh::ast::instruction_to_sexp(&t),
+                None => atom("none"),
+            },
+            lens_sexp,
+            list(durs),
+        ],
+    );
+    let mut result: Option<Sexp> = None;
     ctx.case(input, || {
+        let r = compute(&expanded_blocks, &program, &handler, &flat, &source_block);
+        result = Some(r.clone());
+        r
+    });
+    ctx.case(ast_input, || match result.take() {
+        Some(r) => r,
+        None => compute(&expanded_blocks, &program, &handler, &flat, &source_block),
+    });
+}
+
+fn compute(
+    expanded_blocks: &[BasicBlock<'_>],
+    program: &Program,
+    handler: &DefaultHandler,
+    flat: &[Instruction],
+    source_block: &BasicBlock<'_>,
+) -> Sexp {
+    {
         let block = expanded_blocks[0].clone();
-        let (graph, flat_schedule) = match ScheduledBasicBlock::build(block, &program, &handler) {
+        let (graph, flat_schedule) = match ScheduledBasicBlock::build(block, program, handler) {
             Ok(sb) => {
                 let g = encode_graph(&sb);
-                let s = match sb.as_schedule_seconds(&program, &handler) {
+                let s = match sb.as_schedule_seconds(program, handler) {
                     Ok(s) => schedule_sexp(&s),
                     Err(e) => computed_err(&e),
                 };
@@ -185,14 +225,14 @@ fn case(ctx: &mut Ctx, tag: &str, text: &str) {
                 tagged("skip", vec![]),
             ),
         };
-        let block_schedule = match source_block.as_schedule_seconds(&program, &handler) {
+        let block_schedule = match source_block.as_schedule_seconds(program, handler) {
             Ok(s) => schedule_sexp(&s),
             Err(BasicBlockScheduleError::ScheduleError(_)) => tagged("err", vec![atom("sched")]),
             Err(BasicBlockScheduleError::ComputedScheduleError(e)) => computed_err(&e),
             Err(BasicBlockScheduleError::ProgramError(_)) => tagged("err", vec![atom("program")]),
         };
         tagged("res", vec![graph, flat_schedule, block_schedule])
-    });
+    }
 }
 
 const HDR: &str = "DEFFRAME 0 \"x\":\n    SAMPLE-RATE: 4.0\nDEFFRAME 0 \"y\":\n    SAMPLE-RATE: 8.0\nDEFFRAME 1 \"x\":\n    SAMPLE-RATE: 4.0\nDEFFRAME 0 1 \"z\":\n    SAMPLE-RATE: 4.0\nDEFFRAME 2 \"n\":\n    INITIAL-FREQUENCY: 1.0\nDEFWAVEFORM w4:\n    1, 1, 1, 1\nDEFWAVEFORM w2:\n    1, 1\nDEFCAL A 0:\n    PULSE 0 \"x\" flat(duration: 1.0, iq: 1.0)\nDEFCAL B 0 1:\n    FENCE 1\n    PULSE 0 1 \"z\" flat(duration: 1.0, iq: 1.0)\nDEFCAL C q:\n    DELAY q 0.5\n    A q\n    SHIFT-PHASE q \"x\" 1.0\nDEFCAL RX(%t) 0:\n    SHIFT-PHASE 0 \"x\" %t\n    PULSE 0 \"x\" w4\n    NONBLOCKING PULSE 0 \"y\" w4\nDEFCAL MEASURE 0 addr:\n    CAPTURE 0 \"y\" flat(duration: 0.25, iq: 1.0) addr\n";
